@@ -66,6 +66,7 @@ fn static_facts<F: Family>() {
 fn run_family<F: Family>(p: &Program, verbose: bool, passthrough: bool) -> RunResult {
     let _nt = NoTrack::new();
     static_facts::<F>();
+    triomphe_verif_rt::set_defer_counts(p.defer_counts);
     reset_registry();
     crate::context::clear();
     reg(|r| r.faults = p.fault.iter().map(|f| (f.0, f.1, false)).collect());
@@ -231,6 +232,9 @@ fn run_family<F: Family>(p: &Program, verbose: bool, passthrough: bool) -> RunRe
             "write-after-free",
             format!("block(s) {:?} were written to after they had been returned to the allocator", &rep.waf[..rep.nwaf.min(16)]),
         );
+    }
+    if let Some((c, d)) = triomphe_verif_rt::take_deferred() {
+        violation(&c, d);
     }
     let (stats, log) = sim::end_run();
     RunResult { stats, ops_done: done, ops_skipped: skipped, log, fault_fired, cb_calls, tracked_blocks, drops }
